@@ -30,7 +30,7 @@ class Query:
     def __init__(self, name, src, entry, defines=None, unwind=None, unwindset=None, replace=None,
                  safety=True, extra=None, backends=("cadical", "minisat"), timeout=600, mem_gb=8,
                  big_endian=False, isr=None, includes=None, replay=True, desc="", bounds=None,
-                 unwind_fail_is_violation=False, no_std_checks=False, expect_witness=True, remove_bodies=None, safety_for=("C01", "C18"), split=0, nondet_static=True, agree=1):
+                 unwind_fail_is_violation=False, no_std_checks=False, expect_witness=True, remove_bodies=None, safety_for=("C01", "C18"), split=0, nondet_static=True, agree=1, guard=None):
         self.name = name; self.src = src; self.entry = entry
         self.defines = list(defines or []); self.unwind = unwind; self.unwindset = list(unwindset or [])
         self.replace = dict(replace or {}); self.safety = safety; self.extra = list(extra or [])
@@ -44,6 +44,7 @@ class Query:
         self.safety_for = tuple(safety_for)
         self.split = split
         self.nondet_static = nondet_static
+        self.guard = guard          # (aux label, expected bool): failures of this query count only if that auxiliary condition has this truth value
         self.agree = agree          # number of back ends whose verdicts must coincide (thorough tier: 2)
 
 
@@ -53,7 +54,7 @@ class QResult:
         self.wall = 0.0; self.solver_s = None; self.error = None; self.functions = []
         self.failed = []; self.witness_ok = None; self.unwind_failed = []; self.rss_mb = None
         self.witness_reached = []; self.witness_missed = []
-        self.nprops = 0; self.nsuccess = 0; self.undecided = []; self.stats = {}; self.agreeing_backends = []
+        self.nprops = 0; self.nsuccess = 0; self.undecided = []; self.stats = {}; self.agreeing_backends = []; self.aux = {}
 
 
 def run(cmd, **kw):
@@ -306,6 +307,8 @@ def classify_prop(p):
     name = p.get("property", ""); desc = p.get("description", "")
     if desc.startswith("WITNESS:"):
         return "witness", desc
+    if desc.startswith("AUX:"):
+        return "aux", desc
     if ".unwind." in name or "unwinding assertion" in desc or ".recursion" in name:
         return "unwind", desc
     if ".assertion." in name:
@@ -362,6 +365,8 @@ def run_query(q, workdir):
         st = p.get("status")
         if kind == "witness":
             (res.witness_reached if st == "FAILURE" else res.witness_missed).append(label)
+        elif kind == "aux":
+            res.aux[label] = (st == "SUCCESS") and res.aux.get(label, True)
         elif st == "SUCCESS":
             res.nsuccess += 1
         elif st == "FAILURE":
